@@ -22,7 +22,7 @@ CHECKS = {
         text="On every observed execution of lock/atomic programs: exclusion held at each acquisition (shadow state), try-ops and atomic results were ones the sequential model allows, re-entrant attempts failed or were diagnosed.",
         ref="DESIGN.md §4 C04", note=MODEL_NOTE),
     "C05": dict(
-        technique="runtime monitoring: outcome membership (incl. lost wake-ups seen as deadlocks the model does not allow) for condvar/barrier/once/park programs under enumeration and sampling; corpus of hostile shapes (epoch scenario, reused barrier, double unpark)",
+        technique="runtime monitoring: outcome membership (incl. lost wake-ups seen as deadlocks the model does not allow) for condvar/barrier/once/park programs under enumeration and sampling, park programs additionally enumerated over the schedules without spurious wake-ups against the model without them; corpus of hostile shapes (epoch scenario, reused barrier, double unpark)",
         text="Every observed execution of condvar/barrier/once/park programs produced results and a termination the model allows (no invented or lost wake-up, one leader per generation, one initializer).",
         ref="DESIGN.md §4 C05", note=MODEL_NOTE),
     "C06": dict(
@@ -62,22 +62,22 @@ CHECKS.update({
         text="For every execution observed, every API-level happens-before edge was reflected by the sampled clocks, task clocks only grew, unordered event pairs were never reported ordered (on programs where the rule set is complete); target-clock replay kept all ancestors except for the listed known limitation.",
         ref="DESIGN.md §4 C15", note="trusted: the edge rules in checks/c15.rs; precision only judged where Shuttle documents no conservative edges"),
     "C16": dict(
-        technique="runtime monitoring: generated and boundary schedules round-tripped through the public codec in three textual forms; malformed-input classes (prefixes, non-hex, versions, hand-made headers) run under catch_unwind and in forked children so that aborts are observed",
+        technique="runtime monitoring: generated and boundary schedules round-tripped through the public codec in three textual forms; malformed-input classes (prefixes, non-hex, versions, hand-made headers) run under catch_unwind and in forked children so that aborts are observed; sanitizers: codec round trips and damaged strings under valgrind memcheck (quick) and AddressSanitizer (thorough)",
         text="All generated schedules round-tripped exactly in all textual forms; every malformed string tried was rejected through the return value (no panic, no abort, no wrong decode).",
         ref="DESIGN.md §4 C16", note="a cut string that only lost zero padding and still decodes to the original schedule is accepted"),
 })
 
 CHECKS.update({
     "C07": dict(
-        technique="runtime monitoring: event log written by instrumented thread-locals (init/drop with instance ids), closures and joins of generated thread trees, checked offline per execution (exactly-once, ordering of join vs destructors, per-thread instances, access after destruction, ids/names)",
+        technique="runtime monitoring: event log written by instrumented thread-locals (init/drop with instance ids), closures and joins of generated thread trees, checked offline per execution (exactly-once, ordering of join vs destructors, per-thread instances, access after destruction, ids/names); sanitizers: a slice of the same thread trees under valgrind memcheck (quick) and AddressSanitizer (thorough)",
         text="On every observed execution of the generated thread trees: each closure ran once, join returned the closure's value after the closure and all of the thread's thread-local destructors, scopes outlived their threads, each (thread,key) had one instance destroyed exactly once in initialisation order, access during/after destruction failed, ids and names were right.",
         ref="DESIGN.md §4 C07", note="std::thread::scope does not wait for thread-local destructors either; that part is not demanded"),
     "C12": dict(
-        technique="runtime monitoring in fresh child processes: a history of differently configured Shuttle runs followed by a failing run; the parent checks the caught payload, parses the run's stderr segment and the persistence directory, and replays the emitted schedule in another fresh process",
+        technique="runtime monitoring in fresh child processes: a history of differently configured Shuttle runs followed by a failing run; the parent checks the caught payload, parses the run's stderr segment and the persistence directory, and replays the emitted schedule in another fresh process; sanitizers: failing executions (panics with live guards/thread-locals, deadlocks, step bounds) under valgrind memcheck (quick) and AddressSanitizer (thorough)",
         text="For every (history, mode, scenario) case run: the failure surfaced with the task's own payload / the naming message, a schedule was emitted exactly in the configured way (or not at all when disabled) whatever ran before, replaying it reproduced the failure; portfolios failed iff a member did.",
         ref="DESIGN.md §4 C12", note="target runs that do not hit their failure within 400 random iterations are counted, not judged"),
     "C14": dict(
-        technique="runtime monitoring: per-iteration self-checks at body entry, live-instance accounting of instrumented values across execution boundaries, cleanup-residue hook, in-context vs stand-alone replay differential, with completed / scheduler-stopped / step-bound-cut predecessors",
+        technique="runtime monitoring: per-iteration self-checks at body entry, live-instance accounting of instrumented values across execution boundaries, cleanup-residue hook, in-context vs stand-alone replay differential, with completed / scheduler-stopped / step-bound-cut predecessors; sanitizers: abandoned-then-recycled executions under valgrind memcheck (quick) and AddressSanitizer (thorough)",
         text="On every iteration observed (all schedulers, all predecessor kinds): the body found a fresh world, no instrumented value survived its execution, cleanup left no labels/tags/storage, initialisers ran once, and the iteration equalled the stand-alone replay of its recorded schedule.",
         ref="DESIGN.md §4 C14", note="trusted: hook H3 (post-cleanup residue counts); live-instance counter is a std thread-local of the runner's OS thread"),
     "C17": dict(
@@ -95,7 +95,7 @@ CHECKS.update({
         ref="DESIGN.md §4 C19", note="real tokio from the offline registry is the reference; wake-ups and a few documented corner divergences (capacity of a closed channel, available_permits with a queued request, queued senders/acquirers at close, choice among several Notify waiters) are not compared"),
     "C20": dict(
         engine="vwrap",
-        technique="runtime monitoring: lock_api programs with shadow access matrix, upgrade-atomicity and non-waiting-downgrade monitors; DashMap/DashSet linearised against BTreeMap/BTreeSet in return order; deterministic collections compared with std and their iteration orders compared across instances and fresh processes; rand/lazy_static replacements under the replay and isolation monitors",
+        technique="runtime monitoring: lock_api programs with shadow access matrix, upgrade-atomicity and non-waiting-downgrade monitors; DashMap/DashSet linearised against BTreeMap/BTreeSet in return order; deterministic collections compared with std and their iteration orders compared across instances and fresh processes; rand/lazy_static replacements under the replay and isolation monitors; sanitizers: wrapper programs incl. guards and collected iterator items held while the table grows, under valgrind memcheck (quick) and AddressSanitizer (thorough)",
         text="On everything explored the access matrix held, DashMap results equalled a plain map under the operations' return order, collections matched std and iterated identically across instances and processes, rand draws replayed identically and the wrapped lazy static was per-execution; the listed parking_lot findings are the only deviations.",
         ref="DESIGN.md §4 C20", note="instances built with with_capacity are not order-compared with others"),
 })
